@@ -590,4 +590,6 @@ _orig_build = build_lib
 def build_lib():  # noqa: F811
     lib = _orig_build()
     lib.update(SPEC_LIB)
+    from . import loops
+    loops.install(lib)
     return lib
